@@ -40,3 +40,24 @@ where
             .collect()
     }
 }
+
+impl<T, Companion> BasicGarnishData<T, Companion>
+where
+    T: BasicDataCustom,
+    Companion: BasicDataCompanion<T>,
+{
+    /// Verification-only constructor: every block starts with `initial` cells and grows by adding
+    /// `by` cells (`multiplicative == false`) or by multiplying its size by `by`. The storage
+    /// settings types are not exported by the crate, so a monitor outside it cannot name them.
+    pub fn verif_new_with_growth(initial: usize, multiplicative: bool, by: usize, companion: Companion) -> Result<Self, crate::DataError> {
+        use crate::basic::storage::{ReallocationStrategy, StorageSettings};
+        let settings = || {
+            StorageSettings::new(
+                initial,
+                usize::MAX,
+                if multiplicative { ReallocationStrategy::Multiplicative(by) } else { ReallocationStrategy::FixedSize(by) },
+            )
+        };
+        Self::new_with_settings(settings(), settings(), settings(), settings(), settings(), settings(), companion)
+    }
+}
